@@ -36,7 +36,7 @@ RULE = ('every spec of: [cross] blocks 1..3 x variables per block 1..12 x value 
         'full 12-style cross of the reference writer on a reduced cross; [reuse] reader object that has already read a '
         'TOUGHREACT / TOUGH2 file re-used through read() (blocks 1..2 x nvar {2,5} x 3 permeability settings x 4 '
         'timing/reset); [negexp3] a negative three-digit-exponent value at each position of records of 1..8 (and 9, 12) '
-        'variables; [trnoperm] TOUGHREACT flavour without permeabilities; [order] order-independence passes; '
+        'variables; [nocheck] check_blocknames=False given three ways x 6 name families; [trnoperm] TOUGHREACT flavour without permeabilities; [order] order-independence passes; '
         '[shipped] the 7 shipped files, and 4 ordered pairs of them read into one object. Each spec: '
         'library write -> reference reader; library write -> library read -> compare -> rewrite byte-identical; '
         'reference writer (Fortran styles) -> library read.  Non-trivial = at least one block; distinct = distinct spec.')
@@ -240,6 +240,18 @@ def specs_negexp3(tier):
     return out
 
 
+def specs_nocheck(tier):
+    """The documented option check_blocknames=False (constructor keyword, read() keyword, read() positional) with
+    every name family, not only the names that need it: it switches a check off, nothing else."""
+    out = []
+    for fam in FAMILIES:
+        for how in ('ctor-false', 'read-false', 'read-positional'):
+            for n, nvar, (timing, reset) in itertools.product((1, 3), (2, 5), [(False, True), (True, False)]):
+                out.append(mk(n, nvar, 'mixed', 'val', False, 'small', timing, reset, fam, 'exact', check=how))
+            out.append(mk(40, 3, 'mixed', 'val', True, 'none', True, False, fam, 'exact', check=how))
+    return out
+
+
 def specs_trnoperm(tier):
     """Flavour TOUGHREACT set on the object, no block with permeabilities (incl. no block at all)."""
     return [mk(n, nvar, 'mixed', 'val', 'tr-none', seq, timing, reset, 'conv0num', 'exact')
@@ -272,7 +284,7 @@ def specs_shipped(tier):
 
 
 GROUPS = [('cross', specs_cross, 64), ('empty', specs_empty, 1), ('many', specs_many, 12), ('dev', specs_dev, 2),
-          ('styles', specs_styles, 6), ('reuse', specs_reuse, 2), ('trnoperm', specs_trnoperm, 1), ('negexp3', specs_negexp3, 4),
+          ('styles', specs_styles, 6), ('reuse', specs_reuse, 2), ('trnoperm', specs_trnoperm, 1), ('negexp3', specs_negexp3, 4), ('nocheck', specs_nocheck, 3),
           ('shipped', specs_shipped, 11), ('order', lambda tier: specs_order(tier), 4)]
 
 
@@ -442,7 +454,7 @@ def classes(spec, M):
         fl += '+zero-permeability'
     if spec.get('reuse'):
         fl += ',reader-used-before'
-    return {'name': 'names=%s' % spec.get('names'), 'vars': 'form=%s,records=%d' % (spec.get('form'), nlines),
+    return {'name': 'names=%s%s' % (spec.get('names'), ',check_blocknames=False' if spec.get('check') else ''), 'vars': 'form=%s,records=%d' % (spec.get('form'), nlines),
             'por': 'porosity=%s' % spec.get('por'), 'perm': fl, 'seq': 'seq=%s' % spec.get('seq'),
             'timing': '%s,reset=%s' % (fl, spec.get('reset')), 'flavour': fl, 'count': 'blocks=%s' % spec.get('n')}
 
@@ -597,6 +609,17 @@ def lib_read(path, spec, check_names=True, limit=TIME_LIMIT):
         if spec.get('after'):
             inc = t2incons.t2incon(spec['after'], num_variables=spec['after_nv'])
             inc.read(path, nv, check_names)
+            return inc
+        how = spec.get('check')
+        if how == 'ctor-false':
+            return t2incons.t2incon(path, num_variables=nv, check_blocknames=False)
+        if how == 'read-false':
+            inc = t2incons.t2incon()
+            inc.read(path, num_variables=nv, check_blocknames=False)
+            return inc
+        if how == 'read-positional':
+            inc = t2incons.t2incon()
+            inc.read(path, nv, False)
             return inc
         return t2incons.t2incon(path, num_variables=nv, check_blocknames=check_names)
     with quiet():
